@@ -361,6 +361,7 @@ func gen(rng *vh.Rng, n int, emit func(id string, sel int, in []int64, kind stri
 			map[string]any{"pods": len(ps), "eligible": eligibleCount(ps), "node_err_at": errAt})
 	}
 	genPipelineStreams(rng.Fork(), n, emit)
+	genRealCtor(rng.Fork(), n, emit)
 	for i := 0; i < n/10+3; i++ {
 		var in []int64
 		sel := 1 + rm.Intn(3)
